@@ -15,6 +15,7 @@ ASSUMPTIONS = [
     "every generated successor); pass B (ordered canon) is depth-bounded",
     "a missing/empty neighbour entry of an existing isolated atom is not a view disagreement",
     "well-formedness rules of DESIGN.md 4.3; non-injective relabelling is not generated",
+    "deep histories: a fixed family of long (600 / 3000 step) alphabet cycles with coprime strides on one live object",
 ]
 BUDGET = {"quick": 150, "thorough": 1500}
 EXHAUSTIVE = True
@@ -34,6 +35,9 @@ def drive(ctx):
         da, db = (aq, bq) if tier == "quick" else (at, bt)
         allstats.append(bfs.explore(ctx, kind, MODE, da, False, tier, label=f"{kind}/A"))
         allstats.append(bfs.explore(ctx, kind, MODE, db, True, tier, label=f"{kind}/B"))
+    deep = [it for kind in PLAN for it in bfs.deep_items(kind, MODE, tier)]
+    ctx.pmap(bfs.deep_walk, deep)
+    allstats.append({"deep_histories": len(deep), "length_bound": deep[0]["len"]})
     ctx.extra["exploration"] = allstats
     ctx.distinct = ctx.states
 
